@@ -127,3 +127,10 @@ sexp witness_ok_extent (sexp ctx, sexp self, sexp_sint_t n, sexp dst, sexp src, 
   memcpy(sexp_bytes_data(dst), sexp_bytes_data(src) + s, k);
   return dst;
 }
+
+sexp witness_bad_unsigned_wrap (sexp ctx, sexp self, sexp_sint_t n, sexp bv, sexp k) {
+  /* length - 8 wraps around for bytevectors shorter than 8 */
+  if (sexp_unbox_fixnum(k) < 0 || sexp_unbox_fixnum(k) > sexp_bytes_length(bv) - 8)
+    return SEXP_FALSE;
+  return sexp_make_fixnum(sexp_bytes_data(bv)[sexp_unbox_fixnum(k) + 7]);
+}
